@@ -46,7 +46,7 @@ def gen_versions(rng):
             ndx += 1
             parents = [DEFV[j] for j in range(i) if rng.random() < 0.6][-2:]
             plan.append(dict(flags=rng.choice([0, 0, 0, 2, 4, 6]), ndx=ndx, names=[DEFV[i]] + parents))
-        apart = rng.random() < 0.3          # all entries first, then all auxiliary records
+        apart = (rng.random() < 0.3) if getattr(rng, 'variant', None) is None else rng.variant % 3 == 0   # all entries first, then all auxiliary records
         if apart:
             auxpos = 20 * len(plan)
             auxb = b''
@@ -69,7 +69,7 @@ def gen_versions(rng):
     # version needs
     vn = bytearray()
     needs = []
-    napart = rng.random() < 0.3
+    napart = (rng.random() < 0.3) if getattr(rng, 'variant', None) is None else rng.variant % 3 == 1
     nauxb = b''
     for f in range(nneed):
         naux = rng.choice([1, 1, 2, 3])
@@ -276,7 +276,9 @@ def gen_reloc_file(rng, type_tables):
     """-> (image, description): a relocatable object with one or two relocation sections whose entries use
     types from `type_tables[machine]` (a list of numbers), named and section symbols, no-symbol entries,
     negative and large addends."""
-    mkey = rng.choice(sorted(RELOC_MACH, key=str))
+    v = getattr(rng, 'variant', None)
+    keys = sorted(RELOC_MACH, key=str)
+    mkey = rng.choice(keys) if v is None else keys[v % len(keys)]          # every machine in every run
     cls, le, rela, _ = RELOC_MACH[mkey]
     machine = 8 if isinstance(mkey, str) else mkey
     mips64 = isinstance(mkey, str)
@@ -346,7 +348,11 @@ def gen_layout_file(rng):
     """-> (image, description): an executable laid out like a linker does it - text/rodata/data segments, TLS
     with .tdata/.tbss, .bss at the end of the data segment, PT_NOTE, PT_GNU_STACK, PT_GNU_RELRO, PT_INTERP,
     PT_PHDR - with random section sets, sizes, flags and alignments. Address == offset + base."""
-    cls = rng.choice([32, 64])
+    # the shape of the data segment cycles deterministically with the case number (rng.variant), so that every shape
+    # occurs in every run: class x (plain | TLS | TLS sections last | no file content)
+    v = getattr(rng, 'variant', None)
+    cls = rng.choice([32, 64]) if v is None else (32 if v & 1 else 64)
+    mode = rng.randrange(4) if v is None else (v >> 1) % 4
     le = rng.random() < 0.7
     is64 = cls == 64
     machine = rng.choice([62, 183, 21, 243]) if is64 else rng.choice([3, 40, 8])
@@ -365,16 +371,23 @@ def gen_layout_file(rng):
     plan.append(('.text', 1, 6, 0, 16, 'rx', blob(rng.choice([16, 64, 300]))))
     if rng.random() < 0.5:
         plan.append(('.fini', 1, 6, 0, 4, 'rx', blob(8)))
-    empty_rw = rng.random() < 0.2          # a data segment without file content: an empty .data in front of .bss
-    tls = rng.random() < 0.5 and not empty_rw
+    empty_rw = mode == 3                   # a data segment without file content: an empty .data in front of .bss
+    tls = mode in (1, 2)
+    tls_last = mode == 2                   # .data first, then the TLS sections, then .bss at the address of .tbss
+    rw = []
     if tls:
-        plan.append(('.tdata', 1, 0x403, 0, 8, 'rw', blob(rng.choice([4, 8, 24]))))
-        plan.append(('.tbss', 8, 0x403, rng.choice([4, 16, 64]), 8, 'rw', b''))
-    if rng.random() < 0.6 and not empty_rw:
-        plan.append(('.init_array', 14, 3, 0, 8, 'rw', blob(8 if not is64 else 16)))
-    plan.append(('.data', 1, 3, 0, rng.choice([4, 8, 32]), 'rw', blob(0 if empty_rw else rng.choice([4, 40, 200]))))
-    if rng.random() < 0.8 or empty_rw:
-        plan.append(('.bss', 8, 3, rng.choice([1, 8, 4096]), rng.choice([1, 8, 32]), 'rw', b''))
+        rw.append(('.tdata', 1, 0x403, 0, 8, 'rw', blob(rng.choice([4, 8, 24]))))
+        rw.append(('.tbss', 8, 0x403, rng.choice([4, 16, 64]), 8, 'rw', b''))
+    if rng.random() < 0.6 and not empty_rw and not tls_last:
+        rw.append(('.init_array', 14, 3, 0, 8, 'rw', blob(8 if not is64 else 16)))
+    data = ('.data', 1, 3, 0, rng.choice([4, 8, 32]), 'rw', blob(0 if empty_rw else rng.choice([4, 40, 200])))
+    if tls_last:
+        rw.insert(0, data)
+    else:
+        rw.append(data)
+    if rng.random() < 0.8 or empty_rw or tls_last:
+        rw.append(('.bss', 8, 3, rng.choice([1, 8, 4096]), 8 if tls_last else rng.choice([1, 8, 32]), 'rw', b''))
+    plan += rw
     if rng.random() < 0.5:
         plan.append(('.comment', 1, 0x30, 0, 1, None, b'GCC: (GNU) 12.2.0\0'))
     nseg_max = 12
@@ -498,7 +511,8 @@ def gen_sections_file(rng):
         return bytes(rng.getrandbits(8) for _ in range(n))
     names = ['', 'grp_sig', 'f', 'v']
     tab, offs = elfgen.strtab([n.encode() for n in names])
-    many = rng.random() < 0.25
+    v = getattr(rng, 'variant', None)
+    many = (rng.random() < 0.25) if v is None else v % 5 == 4
     secs = [elfgen.Sec('.text', 1, flags=6, data=blob(rng.choice([4, 64])), align=rng.choice([4, 16, 4096])),
             elfgen.Sec('.data', 1, flags=3, data=blob(8), align=8),
             elfgen.Sec('.bss', 8, flags=3, data=b'', size=rng.choice([1, 64, 0x12345]), align=rng.choice([1, 32])),
@@ -525,7 +539,7 @@ def gen_sections_file(rng):
     # relocations against .text with link -> .symtab and info -> .text
     rel = struct.pack(E + ('QQq' if is64 else 'IIi'), 0, ((2 << 32) | rtype) if is64 else ((2 << 8) | rtype), -4)
     secs.append(elfgen.Sec('.rela.text', 4, flags=0x40, data=rel, link='.symtab', info='.text', entsize=relasz, align=8))
-    xidx = rng.random() < 0.4
+    xidx = (rng.random() < 0.4) if v is None else v % 2 == 1
     syms = [elfgen.sym_pack(E, is64, 0, 0, 0, 0, 0, 0),
             elfgen.sym_pack(E, is64, offs[b'grp_sig'], 0, 0, 0x12, 0, 1),
             elfgen.sym_pack(E, is64, offs[b'f'], 0, 4, 0x12, 0, 0xffff if xidx else 1),
